@@ -117,5 +117,37 @@ def shift(inp):
     return {'violates': bool(bad), 'kind': kind, 'detail': bad[:4]}
 
 
+def mean_field_shift(inp):
+    """MeanFieldTempo with an EXPLICITLY time dependent field equation of motion and a Hamiltonian that depends on the field:
+    (start, f, H) from t0 against (start + tau, f(. - tau), H(. - tau)): times shift by tau, fields and states are unchanged"""
+    import oqupy
+    sx, sz = oqupy.operators.sigma('x'), oqupy.operators.sigma('z')
+    corr = oqupy.PowerLawSD(alpha=0.1, zeta=1.0, cutoff=3.0, cutoff_type='exponential', temperature=0.2)
+    bath = oqupy.Bath(0.5 * sz, corr)
+    par = oqupy.TempoParameters(dt=0.1, dkmax=3, epsrel=1e-8)
+    rho0 = oqupy.operators.spin_dm('y+')
+
+    def run(t0, s):
+        sysf = oqupy.TimeDependentSystemWithField(lambda t, a, s=s: (0.4 + 0.3 * np.sin(2 * (t - s))) * sx + 2.0 * a.real * sz)
+        mfs = oqupy.MeanFieldSystem([sysf], lambda t, states, a, s=s: -0.2j * a + 1.5 * (t - s) + 0.3 * np.trace(states[0] @ sx).real)
+        mf = oqupy.MeanFieldTempo(mean_field_system=mfs, bath_list=[bath], initial_state_list=[rho0], initial_field=0.2 + 0.1j, start_time=t0,
+                                  parameters=par)
+        d = mf.compute(end_time=t0 + 0.5, progress_type='silent')
+        return np.array(d.times), np.array(d.fields), np.array(d.system_dynamics[0].states)
+    bad = []
+    t0 = 0.0
+    ref = run(t0, 0.0)
+    for tau in (3.0, -1.7, 0.25):
+        got = run(t0 + tau, tau)
+        if ref[0].shape != got[0].shape:
+            bad.append({'tau': tau, 'number of time points': [len(ref[0]), len(got[0])]})
+            continue
+        dt_, df, ds = (float(np.abs(got[0] - ref[0] - tau).max()), float(np.abs(got[1] - ref[1]).max()), float(np.abs(got[2] - ref[2]).max()))
+        if dt_ > 1e-9 or df > 1e-9 or ds > 1e-9:
+            bad.append({'tau': tau, 'time labels not shifted by tau': dt_, 'change of the fields': df, 'change of the states': ds})
+    return {'violates': bool(bad), 'detail': bad}
+
+
 # thorough tier (bounded native sweeps): (function, inputs, obligation of the open finding it reproduces or None)
-THOROUGH = [('shift', {'kind': k}, None) for k in ('propagators', 'controls', 'parse', 'time', 'steps', 'correlations')]
+THOROUGH = [('shift', {'kind': k}, None) for k in ('propagators', 'controls', 'parse', 'time', 'steps', 'correlations')] + \
+    [('mean_field_shift', {}, None)]
